@@ -2394,6 +2394,7 @@ int ov_crosslap(OggVorbis_File *vf1, OggVorbis_File *vf2){
 }
 
 static int _ov_64_seek_lap(OggVorbis_File *vf,ogg_int64_t pos,
+                           ogg_int64_t end,
                            int (*localseek)(OggVorbis_File *,ogg_int64_t)){
   vorbis_info *vi;
   float **lappcm;
@@ -2403,6 +2404,14 @@ static int _ov_64_seek_lap(OggVorbis_File *vf,ogg_int64_t pos,
   int i,ret;
 
   if(vf->ready_state<OPENED)return(OV_EINVAL);
+
+  /* collecting the lapping data below consumes decoder output; a
+     request the seek is going to refuse (end is the largest position
+     it accepts) must be refused before that, or the position no
+     longer matches the audio */
+  if(!vf->seekable)return(OV_ENOSEEK);
+  if(pos<0 || pos>end)return(OV_EINVAL);
+
   ret=_ov_initset(vf);
   if(ret)return(ret);
   vi=ov_info(vf,-1);
@@ -2443,15 +2452,15 @@ static int _ov_64_seek_lap(OggVorbis_File *vf,ogg_int64_t pos,
 }
 
 int ov_raw_seek_lap(OggVorbis_File *vf,ogg_int64_t pos){
-  return _ov_64_seek_lap(vf,pos,ov_raw_seek);
+  return _ov_64_seek_lap(vf,pos,vf->end,ov_raw_seek);
 }
 
 int ov_pcm_seek_lap(OggVorbis_File *vf,ogg_int64_t pos){
-  return _ov_64_seek_lap(vf,pos,ov_pcm_seek);
+  return _ov_64_seek_lap(vf,pos,ov_pcm_total(vf,-1),ov_pcm_seek);
 }
 
 int ov_pcm_seek_page_lap(OggVorbis_File *vf,ogg_int64_t pos){
-  return _ov_64_seek_lap(vf,pos,ov_pcm_seek_page);
+  return _ov_64_seek_lap(vf,pos,ov_pcm_total(vf,-1),ov_pcm_seek_page);
 }
 
 static int _ov_d_seek_lap(OggVorbis_File *vf,double pos,
@@ -2464,6 +2473,12 @@ static int _ov_d_seek_lap(OggVorbis_File *vf,double pos,
   int i,ret;
 
   if(vf->ready_state<OPENED)return(OV_EINVAL);
+
+  /* as above: refuse what the time seeks refuse before any decoder
+     output is consumed */
+  if(!vf->seekable)return(OV_ENOSEEK);
+  if(pos<0. || !(pos<ov_time_total(vf,-1)))return(OV_EINVAL);
+
   ret=_ov_initset(vf);
   if(ret)return(ret);
   vi=ov_info(vf,-1);
